@@ -363,7 +363,8 @@ pub extern "C" fn tsrun_get(
         return TsRunValueResult::err(ctx, "Value is not an object".to_string());
     };
 
-    let prop_key = PropertyKey::String(JsString::from(key_str));
+    // the canonical key scripts use: "7" is the index key 7
+    let prop_key = ctx.interp.property_key(key_str);
     let value = obj_ref
         .borrow()
         .get_property(&prop_key)
@@ -409,7 +410,8 @@ pub extern "C" fn tsrun_set(
         return TsRunResult::err(ctx, "Value is not an object".to_string());
     };
 
-    let prop_key = PropertyKey::String(JsString::from(key_str));
+    // the canonical key scripts use: "7" is the index key 7
+    let prop_key = ctx.interp.property_key(key_str);
     obj_ref
         .borrow_mut()
         .set_property(prop_key, val_ref.value().clone());
@@ -424,7 +426,7 @@ pub extern "C" fn tsrun_has(
     obj: *mut TsRunValue,
     key: *const c_char,
 ) -> bool {
-    let _ctx = match unsafe { ctx.as_mut() } {
+    let ctx = match unsafe { ctx.as_mut() } {
         Some(c) => c,
         None => return false,
     };
@@ -443,7 +445,8 @@ pub extern "C" fn tsrun_has(
         return false;
     };
 
-    let prop_key = PropertyKey::String(JsString::from(key_str));
+    // the canonical key scripts use: "7" is the index key 7
+    let prop_key = ctx.interp.property_key(key_str);
     obj_ref.borrow().get_property(&prop_key).is_some()
 }
 
@@ -478,7 +481,8 @@ pub extern "C" fn tsrun_delete(
         return TsRunResult::err(ctx, "Value is not an object".to_string());
     };
 
-    let prop_key = PropertyKey::String(JsString::from(key_str));
+    // the canonical key scripts use: "7" is the index key 7
+    let prop_key = ctx.interp.property_key(key_str);
     obj_ref.borrow_mut().properties.remove(&prop_key);
 
     TsRunResult::success()
@@ -916,7 +920,7 @@ pub extern "C" fn tsrun_call_method(
     };
 
     // Look up method
-    let prop_key = PropertyKey::String(JsString::from(method_str));
+    let prop_key = ctx.interp.property_key(method_str);
     let method_val = obj_ref
         .borrow()
         .get_property(&prop_key)
